@@ -1,6 +1,6 @@
 /-! GENERATED from /repo on every run by harness/c18.py — do not edit. -/
 namespace NSV.C18.Gen
-def SNAP_EPS : Rat := ((-1) : Rat)
+def SNAP_EPS : Rat := (4835703278458517 / 4835703278458516698824704 : Rat)
 def ONSET_WINDOW : Int := 1
 def ONSET_UPWEIGHT : Rat := (5 : Rat)
 def MAX_MIDI_VELOCITY : Int := 127
